@@ -304,7 +304,7 @@ impl Prop for C14 {
         format!(
             "IR level: every tirgen tree ({} contexts{} x 5 probes x {} placements) x every value of the probe's boundary alphabet (37 integers, byte / \
              address lengths {}, utxo-ref txid lengths, 9 wrong-typed values) x 5 stores (one of sibling outputs of one transaction; the k-th query gets two UTxOs starting at the k-th) x 6 protocol-parameter sets (full product of alphabet with the \
-             default store/pparams; stores x pparams with the default value). Constants of every kind and of sizes around 28 / 29 / 32 / 57 bytes in each of the 19 fields and in every key of every chain-specific directive; every directive with every subset of its keys present; signers and reference lists of every sequence of length <= 4 over three items (repeats in every position); two-level trees whose outer context computes with its operand. Language level: every tx of the corpus x every parameter x its boundary \
+             default store/pparams; stores x pparams with the default value). Constants of every kind and of sizes around 28 / 29 / 32 / 57 bytes in each of the 19 fields and in every key of every chain-specific directive; every directive with every subset of its keys present; signers and reference lists of every sequence of length <= 4 over three items (repeats in every position); chains of 8 .. 64 operations over an input / a parameter that is not known yet; two-level trees whose outer context computes with its operand. Language level: every tx of the corpus x every parameter x its boundary \
              alphabet (one non-default argument at a time{}) x stores x pparams. Each combination is driven through resolve_tx and through \
              apply_args / apply_fees / reduce / compiler ops / apply_inputs / reduce / compile (continuing after errors) and a second round of compiler ops / compile on the same instance; every template also with its outputs removed and with every output optional and empty. Oracle: every call returns \
              Ok or Err. Non-trivial = at least one back-end call executed; distinct = (subject, argument, store, pparams).",
@@ -354,6 +354,13 @@ impl Prop for C14 {
             sink.case(|| json!({"kind": "directive-subsets", "directive": d}));
         }
         sink.case(|| json!({"kind": "repeated-items"}));
+        // long chains of operations over something that is not known yet (a change output that subtracts n terms from
+        // an input, n additions over a parameter): every stage has to come back in time however long the chain is
+        for n in [8usize, 16, 24, 32, 48, 64] {
+            for shape in 0..4usize {
+                sink.case(|| json!({"kind": "long-chain", "length": n, "shape": shape}));
+            }
+        }
         if !tier.is_thorough() {
             // two-level trees whose outer context computes with its operand (arithmetic, concatenation, a query's
             // threshold): one drive each with comfortable arguments
@@ -452,6 +459,32 @@ impl Prop for C14 {
                 drive(&tx, &ArgMap::new(), &all_stores[0].1, &all_pp[0].1, &mut o, &json!({"directive": dname, "keys-present": present}), "ir-level");
                 o.key(hash64(&(dname, mask)));
             }
+            return o;
+        }
+        if case["kind"] == "long-chain" {
+            let n = case["length"].as_u64().unwrap_or(8) as usize;
+            let shape = case["shape"].as_u64().unwrap_or(0) as usize;
+            let chain = |open: &str, step: &str| -> String { format!("{open}{}", step.repeat(n)) };
+            let (amount, datum) = match shape {
+                0 => (chain("src - fees", " - Ada(1)"), "1".to_string()),
+                1 => (chain("src - fees", " - Ada(q)"), "1".to_string()),
+                2 => ("src - fees".to_string(), chain("q", " + 1")),
+                _ => ("src - fees".to_string(), chain("q", " - q")),
+            };
+            let src = format!("party A;\ntx t(q: Int) {{\n    input src {{\n        from: A,\n        min_amount: fees,\n    }}\n    output {{\n        to: A,\n        amount: {amount},\n        datum: {datum},\n    }}\n}}\n");
+            if let Ok(Ok(txs)) = panics::catch(|| lower_source(&src)) {
+                for (_, tx) in txs {
+                    let params = find_params(&tx);
+                    let args: ArgMap = params.iter().map(|(k, ty)| (k.clone(), alphabet(ty, tier)[0].clone())).collect();
+                    drive(&tx, &args, &all_stores[0].1, &all_pp[0].1, &mut o, &json!({"long-chain": n, "shape": shape}), "language-level");
+                    // the stages in the order the resolver runs them, without the arguments first (a template is reduced
+                    // before its inputs are known)
+                    drive(&tx, &ArgMap::new(), &all_stores[0].1, &all_pp[0].1, &mut o, &json!({"long-chain": n, "shape": shape, "args": "none"}), "language-level");
+                }
+            } else {
+                o.class("long-chain-not-lowerable");
+            }
+            o.key(hash64(&("long-chain", n, shape)));
             return o;
         }
         if case["kind"] == "repeated-items" {
